@@ -243,7 +243,9 @@ def write_replay(pid, payload):
 
 
 def write_evidence(pid, ev):
-    d = os.path.join(VERIF, 'evidence')
+    # VERIF_EVIDENCE_DIR: used by harness/seedtest.py and bin/sweep so that runs against a deliberately changed tree or
+    # with other seeds do not overwrite the registered evidence
+    d = os.environ.get('VERIF_EVIDENCE_DIR') or os.path.join(VERIF, 'evidence')
     os.makedirs(d, exist_ok=True)
     tmp = os.path.join(d, '%s.json.tmp' % pid)
     with open(tmp, 'w') as fh:
@@ -358,8 +360,9 @@ def run(pid, mod, tier, seed, t0):
         if any(b['kind'] != 'lean-obligation' for b in broken):
             discharged = 0
     # 4. correspondence
-    import purity
+    import purity, cover
     purity.install()
+    cover.start(REPO)
     corr = {'cases': 0, 'disagreements': [], 'stats': {}}
     if hasattr(mod, 'correspondence') and not any(b['kind'] == 'translator-refused' for b in broken):
         try:
@@ -379,10 +382,25 @@ def run(pid, mod, tier, seed, t0):
             broken.append({'kind': 'correspondence', 'what': d.get('fn', '?'), 'detail': d})
     # 5. failing-input search on the real code
     ctx.boost = ctx.boost or bool(broken)
+
+    def run_oracle():
+        return mod.oracle(ctx, hints=[b['detail'] for b in broken])
     try:
-        orc = mod.oracle(ctx, hints=[b['detail'] for b in broken])
+        orc = run_oracle()
+        # code of an anchored function that is not in the reviewed baseline and that neither stream executed: the tie
+        # between model and code does not reach it.  Search again with the large budget (special values, boundary cases).
+        cov = cover.report(pid, REPO)
+        if cov['new_unexercised'] and not ctx.boost and not orc.get('violations'):
+            print('unexercised new code in %s: searching with the large budget' %
+                  ', '.join(sorted(set(x['function'] for x in cov['new_unexercised']))))
+            ctx.boost = True
+            orc2 = run_oracle()
+            orc2['evaluations'] = int(orc2.get('evaluations', 0)) + int(orc.get('evaluations', 0))
+            orc2['distinct_nontrivial'] = int(orc2.get('distinct_nontrivial', 0)) + int(orc.get('distinct_nontrivial', 0))
+            orc = orc2
     except (Infra, subprocess.TimeoutExpired):
         purity.uninstall()
+        cover.stop()
         raise
     except Exception as e:
         # the code under test no longer behaves like anything the search harness anticipated (e.g. wrong result
@@ -393,6 +411,13 @@ def run(pid, mod, tier, seed, t0):
         broken.append({'kind': 'search-aborted', 'what': type(e).__name__, 'detail': tb[-900:]})
         orc = {'evaluations': 0, 'distinct_nontrivial': 0, 'violations': []}
     purity.uninstall()
+    cov = cover.report(pid, REPO)
+    cover.stop()
+    if cov['new_unexercised']:
+        broken.append({'kind': 'unexercised-new-code', 'what': ', '.join(sorted(set(x['function'] for x in cov['new_unexercised']))),
+                       'detail': {'lines': cov['new_unexercised'][:20],
+                                  'why': 'executable lines of an anchored definition that are not in the reviewed source and that neither '
+                                         'the correspondence stream nor the failing-input search executed: model and code are not tied there'}})
     orc.setdefault('violations', [])
     orc['violations'] = purity.violations() + list(orc['violations'])
     known = [k for k in load_known() if k['property'] == pid and k.get('status') == 'known']
@@ -451,7 +476,11 @@ def run(pid, mod, tier, seed, t0):
         'known_findings_reproduced': sorted(known_hit),
         'broken': broken,
         'pins_changed': pins_changed,
-        'value_semantics_guard': dict(purity.STATS, mutation_events=len(purity.EVENTS), history_events=len(purity.HISTORY_EVENTS)),
+        'code_coverage': {'anchored_functions': cov['functions'], 'executable_lines': cov['lines'], 'executed': cov['covered'],
+                          'not_executed': {q: v[:12] for q, v in list(cov['uncovered'].items())[:60]},
+                          'new_unexercised': cov['new_unexercised'][:20], 'baseline_lines_not_reached_this_run': cov['lost'][:40],
+                          'texts': cov['texts']},
+        'value_semantics_guard': dict(purity.STATS, mutation_events=len(purity.EVENTS), history_events=len(purity.HISTORY_EVENTS), dtype_events=len(purity.DTYPE_EVENTS)),
         'notes': ctx.notes,
     }
     ev = {'property_id': pid, 'tier': tier, 'seed': seed, 'level': 'proof', 'coverage': cov,
